@@ -18,6 +18,17 @@ field path (all array elements, all nested members). Second oracle, for every fi
 must be a memory access (scalars) / an address (aggregates, arrays) at the layout offset with the member's type;
 expr_to_c on the simplified expression must give accesses that all translate back to the same expression and,
 for scalars, at least one with the original type.
+
+Incremental-declaration histories (one CAstTypes + ONE long-lived manager of each kind per history): a header made of
+four chunks - U1 (struct/union holding a pointer to tag N: plain, through a typedef of the incomplete tag, through
+a pointer typedef, array of pointers; with or without a forward declaration), N (struct/union, optionally
+self-referential), U2 (struct embedding N, U1 and N[2] by value, through the typedef when there is one), U3 (union
+embedding N) - in both orders (U1 before N, N before U1), cut into every 1..3 consecutive parts loaded one after the
+other. After every part: get_objc of every type mentioned so far (complete or not, typedef names included) and
+pointer-chasing accesses (ptr->head->m0, ptr->owner.head->m0, ptr->next->next->m, ...); after the last part also
+the way back. Oracles: gcc's numbers for every complete aggregate (they do not depend on the cut), and the same
+structural answer as a fresh manager built on the text loaded so far. A violation case carries the history (parts,
+queries, accesses); replay recompiles the expectations with gcc.
 """
 import itertools
 import os
@@ -33,7 +44,9 @@ LEVEL = "exploration"
 ENGINE = "enum"
 RULE = ("every struct/union declaration of the depth<=2 grammar (see bounds) x {natural, packed} x every nested "
         "aggregate x every field path; a declaration is non-trivial when gcc's natural layout differs from its packed "
-        "layout (alignment inserts padding) or it contains a union (members alias)")
+        "layout (alignment inserts padding) or it contains a union (members alias); plus every incremental-loading "
+        "history of the scenario grammar (see module doc) x 2 orders x 7 cuts x {natural, packed}, non-trivial when the "
+        "pointed-to tag is completed in a later part than a part whose queries already reached it")
 LEVEL_TEXT = ("Bounded-exhaustive: every declaration of an explicit grammar over all supported scalar types (long double included: the only 16-byte-aligned leaf), arrays [1..3] "
               "and nested structs/unions, with <=3 members, compared with the numbers gcc computes for x86-64 (natural and "
               "packed), for every nested aggregate and every field path; plus the C-access <-> expression round trip on "
@@ -42,7 +55,8 @@ LEVEL_NOTE = ("Trusted: gcc -m64 as evaluator of sizeof/_Alignof/offsetof, pycpa
               "addresses before comparing them). Nested aggregates at depth 2 draw members from the core types "
               "(one per (size, align) class 1/2/4/8/16; quick leaves the 2-byte class to the un-nested products). "
               "Not covered: bit-fields, enums, function pointers, "
-              "typedef chains, anonymous members, flexible arrays, pointer-to-pointer chains.")
+              "typedef chains, anonymous members, flexible arrays, pointer-to-pointer chains; typedef names used in a later "
+              "add_c_decl than the one declaring them (pycparser forgets them between calls: the histories re-declare).")
 TECHNIQUE = "complete enumeration of C declarations; layout compared with gcc; access translation round trip per field path"
 ASSUMPTIONS = ["the local gcc targeting x86-64 implements the System V ABI layout and GNU packed layout",
                "for the packed manager every struct/union of the declaration carries __attribute__((packed))",
@@ -200,6 +214,11 @@ def bounds_for(quick):
         "nested_members": 2,
         "nested_member_alphabet": "nested core" if quick else "core + char[3] + short[3]",
         "managers": ["CTypesManagerNotPacked", "CTypesManagerPacked"],
+        "history_scenarios": sum(1 for _ in hist_scenarios(quick)),
+        "history_orders": HIST_ORDERS,
+        "history_cuts": HIST_SPLITS,
+        "history_pointer_forms": HIST_FORMS,
+        "history_tag_bodies": "{char,long}, {long double}" if quick else "every <=2 members over the nested core",
     }
 
 
@@ -775,7 +794,7 @@ def run_history(case, G):
         if sig not in seen:
             seen.add(sig)
             vs.append(violation(sig, "%s [history: %s; parts: %s]" % (what, case["scenario"],
-                                                                     " || ".join(case["parts"])), case))
+                                                                     " || ".join(x.replace("\n", " ") for x in case["parts"])), case))
 
     def count(k, n=1):
         stats[k] = stats.get(k, 0) + n
